@@ -2,6 +2,7 @@
 from __future__ import annotations
 
 import sys
+import warnings
 import math
 
 import numpy as np
@@ -180,6 +181,19 @@ def sub_spi(case, rec=None):
         # the same window expressed by dates on or BETWEEN the 10-day steps (begin up to 9 days early, end up to 9 days late)
         b_off, e_off = int(case.get("begin_early", 0)) % 10, int(case.get("end_late", 0)) % 10
         kw = {"calibration_begin": str((t[win[0]] - pd.Timedelta(days=b_off)).date()), "calibration_end": str((t[win[1] - 1] + pd.Timedelta(days=e_off)).date())}
+    if case.get("decoy") and n >= 4:
+        # an EARLIER spi() call in this process with the same window arguments on another cube whose time axis has the same first step,
+        # last step and length but different steps in between: nothing of it may carry over to the call that is judged
+        t2 = pd.DatetimeIndex([t[0] + pd.Timedelta(days=(5 if case["decoy"] == "dense_start" else 1) * i) for i in range(n - 1)] + [t[-1]])
+        if case["decoy"] == "dense_end":
+            t2 = pd.DatetimeIndex([t[0]] + [t[-1] - pd.Timedelta(days=3 * (n - 1 - i)) for i in range(1, n)])
+        da2 = xr.DataArray(x[::-1].copy().reshape(n, 1, 1), dims=("time", "y", "x"), coords={"time": t2}, attrs={"nodata": nd})
+        try:
+            with warnings.catch_warnings():
+                warnings.simplefilter("ignore")
+                da2.hdc.algo.spi(**kw)
+        except Exception:  # noqa: BLE001 - the window may be invalid on the other axis; only what it leaves behind matters
+            pass
     res = call("hdc.algo.spi", lambda: da.hdc.algo.spi(**kw))
     req(res.dtype == np.int16, "spi() dtype %s" % res.dtype, "spi dtype")
     return _compare("spi()", res.transpose("y", "x", "time").values[0, 0], x, ok, nd, win, case, rec)
@@ -315,6 +329,8 @@ def pixel(draw, nmax, paths=("gammastd", "yxt", "grp", "accessor"), dtypes=("flo
         case["end_late"] = draw(st.sampled_from([0, 0, 4, 9]))
     if case["path"] == "yxt":
         case["twin_pixel"] = draw(st.booleans())
+    if case["path"] == "accessor" and draw(st.booleans()):
+        case["decoy"] = draw(st.sampled_from(["dense_start", "dense_end", "daily_start"]))
     return case
 
 
@@ -339,7 +355,7 @@ def run(ctx):
             rec.discard("spi", why.split(":")[0])
         rec.case("spi", case, nontrivial=_nontrivial(case) and why is None,
                  cls=["dtype:" + case["dtype"], "kind:" + case["kind"], "path:" + case["path"], "zeros" if case["zeros"] else "nozeros",
-                      "window" if case.get("window") else "full"])
+                      "window" if case.get("window") else "full"] + (["after_a_call_on_another_axis_with_the_same_ends"] if case.get("decoy") else []))
 
     ctx.given("spi", pixel(ctx.n(150, 400)), ctx.n(1500, 20000), fn=f_spi)
 
